@@ -205,6 +205,46 @@ def auto_discharge(prog, fn, v, op, a, b):
         ats = origins(prog, fn, sa)
         if ats and all(a[0] in ('search', 'len') for a in ats):
             return 'a Vec position / length (at most isize::MAX) plus a small constant cannot overflow usize'
+    # iteration counters in a 64-bit type: start at a small constant, grow by at most a small constant (or a bool) per
+    # round; they and small linear functions of them cannot overflow unless a loop ran > 2^47 rounds (assumed impossible)
+    wide = (v.ty or '').startswith(('usize', '(usize', 'u64', '(u64', 'i64', '(i64', 'isize', '(isize'))
+    if wide:
+        def small(x):
+            x = strip(x)
+            if x.kind == 'const' and isinstance(x.args[0], int) and 0 <= x.args[0] <= 65536:
+                return True
+            return x.ty == 'bool' or (x.kind == 'bin' and x.args[0] in ('Eq', 'Ne', 'Lt', 'Le', 'Gt', 'Ge'))     # a bool widened to an integer: 0 or 1
+
+        def counter(x, depth=0):
+            x = strip(x)
+            if x.kind == 'load' and x.fields() == ('0',):
+                x = strip(x.args[0])
+            if small(x):
+                return True
+            if depth > 4:
+                return False
+            if x.kind == 'phi' and not x.extra.get('anyof'):
+                for a2 in x.args:
+                    a2 = strip(a2)
+                    if a2.kind == 'load' and a2.fields() == ('0',):
+                        a2 = strip(a2.args[0])
+                    if a2 is x or small(a2):
+                        continue
+                    if a2.kind == 'bin' and a2.args[0].replace('WithOverflow', '').replace('Unchecked', '') == 'Add':
+                        p1, p2 = strip(a2.args[1]), strip(a2.args[2])
+                        if (p1 is x and small(p2)) or (p2 is x and small(p1)):
+                            continue
+                    if a2.kind == 'phi' and counter(a2, depth + 1):
+                        continue
+                    return False
+                return True
+            return False
+        if op == 'Add' and ((counter(sa) and small(sb)) or (counter(sb) and small(sa))):
+            return 'iteration counter in a 64-bit type (grows by a small constant per round): cannot overflow'
+        if op == 'Mul' and ((counter(sa) and small(sb)) or (counter(sb) and small(sa))):
+            return 'small multiple of an iteration counter in a 64-bit type: cannot overflow'
+        if op == 'Shl' and counter(sa) and sb.kind == 'const' and isinstance(sb.args[0], int) and sb.args[0] <= 16:
+            return 'small shift of an iteration counter in a 64-bit type: cannot overflow'
     if op == 'Sub' and sa.kind == 'call' and sa.callee_name() == 'len':
         # len - n where n <= len guarded
         for (g, x, y) in guards:
